@@ -352,7 +352,7 @@ Definition hd_blank_line (h : headers) (buf : str) : headers * str * pres :=
 (* message_headers::parse; fuel = number of loop iterations available (each consumes a byte or ends) *)
 Fixpoint hd_loop (fuel : nat) (L : limits) (h : headers) (buf : str) : headers * str * pres :=
   match fuel with
-  | O => (h, buf, Fail)     (* out of fuel: excluded by the totality theorem *)
+  | O => (hd_set_fail h, buf, Fail)     (* out of fuel: unreachable (hd_loop_fuel_enough, P_Parse.v) *)
   | S fuel' =>
       let enter :=
         negb (hd_cr h) &&
@@ -381,7 +381,7 @@ Fixpoint hd_loop (fuel : nat) (L : limits) (h : headers) (buf : str) : headers *
   end.
 
 Definition hd_parse (L : limits) (h : headers) (buf : str) : headers * str * pres :=
-  if hd_fail h then (h, buf, Fail) else hd_loop (S (length buf)) L h buf.
+  if hd_fail h then (h, buf, Fail) else hd_loop (S (S (length buf))) L h buf.
 
 (* the queries used by the receivers *)
 Definition hd_find (h : headers) (name : str) : str :=
